@@ -577,7 +577,9 @@ class SCFG(Sized):
         # an arc through the inserted block instead.
         for name in predecessors:
             block = self.graph.pop(name)
-            jt = list(block.jump_targets)
+            # All targets, declared back edges included: they are written back
+            # below and must not be lost.
+            jt = list(block._jump_targets)
             if successors:
                 for s in successors:
                     if s in jt:
@@ -679,7 +681,9 @@ class SCFG(Sized):
         # an arc through the to be inserted block instead.
         for name in predecessors:
             block = self.graph[name]
-            jt = list(block.jump_targets)
+            # All targets, declared back edges included: they are written back
+            # below and must not be lost.
+            jt = list(block._jump_targets)
             renamed = []
             # Need to create synthetic assignments for each arc from a
             # predecessors to a successor and insert it between the predecessor
